@@ -243,7 +243,7 @@ func (c *Client) Get(ctx context.Context, k client.ObjectKey, o client.Object, _
 		m, err = c.Store.Get(gvk, k.Namespace, k.Name)
 	}
 	if c.Sim != nil {
-		c.Store.LogRead(c.caller(ctx), "get", gvk, k.Namespace, k.Name, m, 0, err)
+		c.Store.LogRead(c.caller(ctx), "get", gvk, k.Namespace, k.Name, m, nil, err)
 	}
 	if err != nil {
 		return err
@@ -276,7 +276,7 @@ func (c *Client) List(ctx context.Context, l client.ObjectList, opts ...client.L
 	}
 	ms, err := c.Store.ListAt(c.readSeq(gvk.GroupKind(), out, aux), gvk, lo.Namespace, lo.LabelSelector)
 	if c.Sim != nil {
-		c.Store.LogRead(c.caller(ctx), "list", gvk, lo.Namespace, sel, nil, len(ms), err)
+		c.Store.LogRead(c.caller(ctx), "list", gvk, lo.Namespace, sel, nil, ms, err)
 	}
 	if err != nil {
 		return err
